@@ -89,9 +89,84 @@ where
     ans.put("dijkstra-goal", enc, || format!("{:?}", dijkstra(g, v.id(s), Some(v.id(t)), pos).get(&v.id(t))));
     ans.put("astar", enc, || format!("{:?}", astar(g, v.id(s), |x| x == v.id(t), pos, |_| 0).map(|r| r.0)));
     ans.put("k_shortest_path", enc, || fmt_map(k_shortest_path(g, v.id(s), None, 2, pos).into_iter().map(|(k, d)| (l(k), d)).collect()));
+    let directed = v.a.directed;
     ans.put("spfa", enc, || match spfa(g, v.id(s), |e| *e.weight() as i64) {
         Err(_) => "NegativeCycle".to_string(),
-        Ok(p) => fmt_map(v.live.iter().map(|&x| (back[x], p.distances[g.to_index(v.id(x))])).collect()),
+        Ok(p) => {
+            // the predecessor table is not unique, but on every encoding it must be a shortest-path
+            // tree: pred[x] = p means an edge p -> x with dist[p] + w = dist[x]
+            for &x in &v.live {
+                let (xi, d) = (g.to_index(v.id(x)), p.distances[g.to_index(v.id(x))]);
+                match p.predecessors[xi] {
+                    None => assert!(x == s || d == i64::MAX, "spfa: node {} has distance {d} but no predecessor", back[x]),
+                    Some(q) => {
+                        let dq = p.distances[g.to_index(q)];
+                        let tight = g.edges(q).any(|e| {
+                            let hit = (e.source() == q && e.target() == v.id(x)) || (!directed && e.target() == q && e.source() == v.id(x));
+                            hit && dq != i64::MAX && dq + *e.weight() as i64 == d
+                        });
+                        assert!(tight, "spfa: predecessor {} of {} does not account for its distance {d} (dist[pred] = {dq})", l(q), back[x]);
+                    }
+                }
+            }
+            fmt_map(v.live.iter().map(|&x| (back[x], p.distances[g.to_index(v.id(x))])).collect())
+        }
+    });
+    ans.put("astar-path-valid", enc, || match astar(g, v.id(s), |x| x == v.id(t), pos, |_| 0) {
+        None => "None".to_string(),
+        Some((cost, path)) => {
+            assert!(path.first() == Some(&v.id(s)) && path.last() == Some(&v.id(t)), "astar: path endpoints");
+            let mut sum = 0u32;
+            for w in path.windows(2) {
+                let best = g
+                    .edges(w[0])
+                    .filter(|e| (e.source() == w[0] && e.target() == w[1]) || (!directed && e.target() == w[0] && e.source() == w[1]))
+                    .map(pos)
+                    .min();
+                sum += best.expect("astar: consecutive path nodes are not joined by an edge");
+            }
+            assert!(sum == cost, "astar: path costs {sum}, reported {cost}");
+            "valid".to_string()
+        }
+    });
+    ans.put("depth_first_search", enc, || {
+        use petgraph::visit::{depth_first_search, Control, DfsEvent};
+        // control flow decided by labels only (so it is the same abstract script on every encoding):
+        // prune at Discover of every node whose label is 1 mod 3 (except the start)
+        let n = v.a.n;
+        let (mut disc, mut fin) = (vec![false; n], vec![false; n]);
+        let mut stack: Vec<usize> = Vec::new();
+        let mut events = 0usize;
+        depth_first_search(g, Some(v.id(s)), |ev| {
+            events += 1;
+            assert!(events <= 4 * (n + 2 * v.a.m() + 4), "depth_first_search: event flood");
+            match ev {
+                DfsEvent::Discover(x, _) => {
+                    let x = l(x);
+                    assert!(!disc[x], "depth_first_search: {x} discovered twice");
+                    disc[x] = true;
+                    stack.push(x);
+                    if x % 3 == 1 && stack.len() > 1 {
+                        return Control::<()>::Prune;
+                    }
+                }
+                DfsEvent::Finish(x, _) => {
+                    let x = l(x);
+                    assert!(stack.pop() == Some(x), "depth_first_search: Finish({x}) does not close the innermost open node");
+                    fin[x] = true;
+                }
+                DfsEvent::TreeEdge(x, y) => assert!(stack.last() == Some(&l(x)) && !disc[l(y)], "depth_first_search: TreeEdge({}, {})", l(x), l(y)),
+                DfsEvent::BackEdge(x, y) => {
+                    assert!(stack.last() == Some(&l(x)) && stack.contains(&l(y)) && !fin[l(y)], "depth_first_search: BackEdge({}, {}) to a node that is not an open ancestor", l(x), l(y))
+                }
+                DfsEvent::CrossForwardEdge(x, y) => assert!(stack.last() == Some(&l(x)) && fin[l(y)], "depth_first_search: CrossForwardEdge({}, {}) to an unfinished node", l(x), l(y)),
+            }
+            Control::Continue
+        });
+        assert!(stack.is_empty() && disc == fin, "depth_first_search: discovered {disc:?} but finished {fin:?}");
+        // reached set = nodes reachable through unpruned interior nodes: independent of the visiting order
+        let x: Vec<usize> = (0..n).filter(|&i| disc[i]).collect();
+        format!("{x:?}")
     });
     ans.put("tarjan_scc", enc, || {
         let mut c: Vec<Vec<usize>> = tarjan_scc(g).into_iter().map(|c| { let mut c: Vec<usize> = c.into_iter().map(l).collect(); c.sort(); c }).collect();
@@ -281,7 +356,23 @@ where
     let s = back.iter().position(|&x| x == s).unwrap();
     ans.put("bellman_ford", enc, || match bellman_ford(g, v.id(s)) {
         Err(_) => "NegativeCycle".to_string(),
-        Ok(p) => fmt_map(v.live.iter().map(|&x| (back[x], format!("{}", p.distances[g.to_index(v.id(x))]))).collect()),
+        Ok(p) => {
+            for &x in &v.live {
+                let (xi, d) = (g.to_index(v.id(x)), p.distances[g.to_index(v.id(x))]);
+                match p.predecessors[xi] {
+                    None => assert!(x == s || d == f64::INFINITY, "bellman_ford: node {} has distance {d} but no predecessor", back[x]),
+                    Some(q) => {
+                        let dq = p.distances[g.to_index(q)];
+                        let tight = g.edges(q).any(|e| {
+                            let hit = (e.source() == q && e.target() == v.id(x)) || (!v.a.directed && e.target() == q && e.source() == v.id(x));
+                            hit && dq + *e.weight() == d
+                        });
+                        assert!(tight, "bellman_ford: predecessor {} of {} does not account for its distance {d} (dist[pred] = {dq})", lab(v, &back, q), back[x]);
+                    }
+                }
+            }
+            fmt_map(v.live.iter().map(|&x| (back[x], format!("{}", p.distances[g.to_index(v.id(x))]))).collect())
+        }
     });
     ans.put("find_negative_cycle", enc, || format!("{}", find_negative_cycle(g, v.id(s)).is_some()));
 }
